@@ -269,10 +269,10 @@ func (s S) Has(state string) bool {
 // IndexToStates is deprecated, use [S.FilterIndex].
 func IndexToStates(index S, states []int) S {
 	ret := make(S, len(states))
-	for i := range states {
-		name := "unknown" + strconv.Itoa(states[i])
-		if len(index) > states[i] && states[i] != -1 {
-			name = index[states[i]]
+	for i, idx := range states {
+		name := "unknown" + strconv.Itoa(idx)
+		if idx >= 0 && idx < len(index) {
+			name = index[idx]
 		}
 		ret[i] = name
 	}
